@@ -10,6 +10,7 @@ import (
 	"os"
 	"path/filepath"
 	"strings"
+	"sync"
 	"testing"
 
 	"verif/harness/h"
@@ -33,6 +34,9 @@ type Spec struct {
 	// UsedValidator: the ValidatorContext that validates the pristine build has validated a damaged copy of it
 	// before (one byte flipped in the first non-empty file); nothing of that run may stick to the context
 	UsedValidator bool `json:"used_validator,omitempty"`
+	// Together: at the end the pristine build is validated by three goroutines at the same time, each with its
+	// own ValidatorContext (diff-time signature, stand-alone signature, diff-time again): all three must pass
+	Together bool `json:"together,omitempty"`
 }
 
 // refWeak is the weak hash written from the format description:
@@ -232,6 +236,30 @@ func check(s Spec) h.Result {
 	if err := pwr.AssertValid(nd, &pwr.SignatureInfo{Container: c, Hashes: hs}); err != nil {
 		return h.Result{Fail: fmt.Sprintf("fail-fast validation against the stand-alone signature failed: %v", err), Classes: cl}
 	}
+	if s.Together {
+		cl = append(cl, "validation:three-at-the-same-time-in-one-process")
+		errs := make([]error, 3)
+		var wg sync.WaitGroup
+		for k := range errs {
+			wg.Add(1)
+			go func(k int) {
+				defer wg.Done()
+				sig := si
+				if k == 1 {
+					sig = &pwr.SignatureInfo{Container: c, Hashes: hs}
+				}
+				for rep := 0; rep < 2 && errs[k] == nil; rep++ {
+					errs[k] = pwr.AssertValid(nd, sig)
+				}
+			}(k)
+		}
+		wg.Wait()
+		for k, err := range errs {
+			if err != nil {
+				return h.Result{Fail: fmt.Sprintf("three validations of the pristine build at the same time: validation %d failed: %v", k, err), Classes: cl}
+			}
+		}
+	}
 	return h.Result{Classes: cl, NonTrivial: nt}
 }
 
@@ -292,6 +320,7 @@ var prop = h.Prop[Spec]{
 			s.Jitter = rapid.SliceOfN(rapid.Byte(), 1, 16).Draw(t, "jitter-bytes")
 		}
 		s.UsedValidator = rapid.IntRange(0, 3).Draw(t, "used-validator") == 0
+		s.Together = rapid.IntRange(0, 2).Draw(t, "validate-together") == 0
 		if rapid.IntRange(0, 7).Draw(t, "single-file-build") == 0 {
 			s.SingleFile = true
 			s.New = h.Tree{{Path: rapid.SampledFrom([]string{"a", "game.bin", "a..b", "A"}).Draw(t, "single-name"), Kind: h.KFile,
